@@ -311,6 +311,7 @@ type BoundedResult struct {
 	Exhausted bool   `json:"exhausted"`
 	Violation string `json:"violation,omitempty"`
 	Bound     int    `json:"bound"`
+	Kind      string `json:"kind,omitempty"` // "" = exclusive-group reachability, "determinism" = repeated-run comparison
 }
 
 func runBoundedGroups(opts *RunOpts, groups []boundedGroup, bound int) ([]BoundedResult, error) {
@@ -447,7 +448,7 @@ func main() {
 		return nil, fmt.Errorf("bounded stand-in output: %v (%s)", err, firstLines(outb.String(), 3))
 	}
 	for _, r := range raw {
-		rs = append(rs, BoundedResult{r.Schema, r.Group, r.States, r.Exhausted, r.Violation, r.Bound})
+		rs = append(rs, BoundedResult{Schema: r.Schema, Group: r.Group, States: r.States, Exhausted: r.Exhausted, Violation: r.Violation, Bound: r.Bound})
 	}
 	return rs, nil
 }
